@@ -21,7 +21,7 @@ pub fn get() -> FunctionDefinitions {
                         return None;
                     }
                 }
-                Some(sum.into())
+                JsonValue::from_finite(sum)
             }
         }
         Rc::new(Impl(args))
